@@ -20,10 +20,13 @@ def cell(r):
         elif rc == '2': out.append(f"{chk}: inconclusive (exit 2)")
         else: out.append(f"{chk}: missed")
     return '; '.join(out) or '—'
+rnd = 'n'
+if sys.argv[1].startswith('--round='):
+    rnd = sys.argv[1].split('=')[1]; del sys.argv[1]
 first = parse(sys.argv[1:2]); later = parse(sys.argv[2:])
 notes = json.load(open('/verif/seeded/NOTES.json')) if os.path.exists('/verif/seeded/NOTES.json') else {}
 rows = []
-for d in sorted(glob.glob('/verif/seeded/C*-n*')):
+for d in sorted(glob.glob('/verif/seeded/C*-%s*' % rnd)):
     name = os.path.basename(d)
     summ = json.load(open(d + '/meta.json')).get('summary', '')[:120].replace('|', '/')
     note = (' NOTE: ' + notes[name]) if name in notes else ''
@@ -31,9 +34,9 @@ for d in sorted(glob.glob('/verif/seeded/C*-n*')):
 c1 = sum(1 for n, r in first.items() if any(v[0] == '1' for v in r.values()))
 merged = {n: {**first.get(n, {}), **later.get(n, {})} for n in set(first) | set(later)}
 c2 = sum(1 for n, r in merged.items() if any(v[0] == '1' for v in r.values()))
-out = ("# Second, independent round of seeded changes\n\nWritten by fresh sub-agents (property text + scratch worktree only) AFTER the checks had been strengthened against round 1; "
+out = (("# Second" if rnd == "n" else "# Third") + ", independent round of seeded changes\n\nWritten by fresh sub-agents (property text + scratch worktree only) AFTER the checks had been strengthened against the earlier round(s); "
        "stored and committed before any check was run against them. The first column is therefore an unbiased sample of what the checks catch.\n\n"
        f"First run: {c1} of {len(rows)} caught. After strengthening: {c2} of {len(rows)}.\n\n"
        "| seeded change | what it changes | first run | after strengthening |\n|---|---|---|---|\n" + "\n".join(rows) + "\n")
-open('/verif/seeded/RESULTS_round2.md', 'w').write(out)
+open('/verif/seeded/RESULTS_round%s.md' % {'n':'2','p':'3'}[rnd], 'w').write(out)
 print(f"first run {c1}/{len(rows)}, after {c2}/{len(rows)}")
